@@ -97,10 +97,18 @@ THEOREMS = [
        let st := mrun vals (minit cell n) sched in
        (forall b, m_cell st = Some b -> P b) /\
        (forall i r, nth_error (m_pcs st) i = Some (PDone r) -> exists b, r = Ok b /\ P b)"""),
-    ("memo_write_once", r"""forall vals sched st b, m_cell st = Some b -> m_cell (mrun vals st sched) = Some b"""),
+    ("memo_write_once", r"""forall vals n cell sched1 sched2 b,
+       m_cell (mrun vals (minit cell n) sched1) = Some b -> m_cell (mrun vals (minit cell n) (sched1 ++ sched2)) = Some b"""),
     ("memo_completes", r"""forall vals cell n sched,
-       (forall i, (i < n)%nat -> (4 <= count_occ Nat.eq_dec sched i)%nat) ->
-       forallb pc_done (m_pcs (mrun vals (minit cell n) sched)) = true"""),
+       let st := mrun vals (minit cell n) sched in
+       (total_left (minit cell n) = 4 * n)%nat /\
+       (forallb pc_done (m_pcs st) = true \/
+        exists i st', mstep vals st i = Some st' /\ (total_left st' < total_left st)%nat)"""),
+    ("memo_double_write_v0_refuted", r"""exists vals sched1 sched2 b b',
+       b <> b' /\
+       m0_cell (mrun0 vals (minit0 2) sched1) = Some b /\
+       nth_error (m0_pcs (mrun0 vals (minit0 2) sched1)) 0 = Some (P0Done (Ok b)) /\
+       m0_cell (mrun0 vals (minit0 2) (sched1 ++ sched2)) = Some b'"""),
     ("list_header_ows_v0_refuted", r"""exists ms, ms <> [] /\ forallb member_ok ms = true /\
        list_header_gen parse_q_dec false (members_text ms) <> map (member_ref parse_q_dec) ms /\
        In (B "gzip", QOne) (list_header_gen parse_q_dec false (members_text ms))"""),
@@ -444,6 +452,10 @@ def generate(rng, tier):
                                hce=rng.choice([None, None, None, None, b"identity", b"gzip", b"br"]),
                                status=rng.choice([200, 200, 200, 200, 404, 403, 500, 201, 410]),
                                levels=(random_levels(rng), random_levels(rng)) if rng.random() < 0.5 else DEFAULT_LEVELS))
+    # ---- the memo cell under real parallelism: many rounds of n tasks released together on worker threads ----------------------
+    for coding in (0, 1, 2):
+        for rounds, n, blen in ((400, 8, 64), (100, 16, 3000)) if quick else ((60000 if coding == 2 else 20000, 16, 50), (3000, 8, 64), (500, 16, 20000)):
+            cases.append(Case("neg.stress", xl(xn(rounds), xn(n), xn(blen), xn(coding)), None, {"kind": "stress/memo-cell"}))
     # ---- mime / do_compress directly ----------------------------------------------------------------------------------------
     for ct, _ in CTYPES:
         cases.append(Case("neg.mime", xb(ct), None, {"kind": "mime/table", "ctype": ct}))
@@ -666,6 +678,17 @@ def extra_oracle(c, i):
         return None
     if c.comp == "neg.mime":
         return None
+    if c.comp == "neg.stress":
+        try:
+            anomalies, total, wrong = (x[1] for x in v[1])
+        except Exception:
+            return "bad output"
+        if wrong:
+            return "%d of %d replies to concurrent requests for a cold memo cell are not 200 / mislabelled / do not decode to the body" % (wrong, total)
+        if anomalies:
+            return ("%d of %d replies to concurrent requests for a cold memo cell carry another buffer than the first reply: "
+                    "the cell was written more than once" % (anomalies, total))
+        return None
     if c.comp != "neg.pipe":
         return None
     if v[0] != "L":
@@ -785,6 +808,8 @@ def signature(c, m):
         return None
     if c.comp == "neg.list_header":
         return m[:60] if "(N 0))" in m or "(N 2))" in m else None
+    if c.comp == "neg.stress":
+        return None
     return m[:40]
 
 
@@ -852,9 +877,10 @@ ASSUMPTIONS = [
     "grammar of f32::from_str (sign, exponent, inf / nan) classified exactly against the binary32 rounding boundaries, and "
     "'type/subtype[+suffix][; charset=utf-8]'; a sniffed (absent) content type on a non-empty body is out of the model's domain (counted; the spec "
     "oracles still judge those replies)",
-    "memo cell: sequentially consistent interleavings only; the unsynchronised UnsafeCell write is a data race in Rust's memory model and nothing is "
-    "proved about it; the run exercises n futures joined on one thread and n tasks released together on a 4-worker runtime (every reply decoded, "
-    "all carrying one buffer), which cannot show the absence of a torn write",
+    "memo cell: the model is the protocol of tokio::sync::OnceCell::get_or_init (fast-path check, one permit, store, read) under all "
+    "interleavings of its steps; OnceCell's own implementation (semaphore, Acquire / Release on the flag) is trusted; the run exercises n futures "
+    "joined on one thread, n tasks released together on a 4-worker runtime, and (neg.stress) hundreds to tens of thousands of such rounds: every "
+    "reply decoded and all carrying one buffer",
     "n concurrent requests that arrive before the page has a cache entry: the model takes the schedule in which all of them miss the cache (each "
     "compresses for itself); on the real code a late one may find the entry an early one inserted, so the 'memoised buffer' flag of that one group "
     "is not compared (everything else is)",
@@ -888,12 +914,14 @@ LEVEL_TEXT = ("Coq theorems about a byte-level model of list_header and a transc
               "groups of concurrent requests, from a cold cache — is allowed by the executable specification spec_verdict (serve_meets_spec; the same "
               "spec_verdict judges every reply of the real code on each run); preferred-then-zstd-br-gzip order (preference_order); list_header = "
               "reference parse on the RFC 7231 grammar with OWS (list_header_wf) and total with at most commas+1 values (list_header_total); memo cell "
-              "invariant, write-once and completion under all SC interleavings of n tasks (memo_invariant, memo_write_once, memo_completes).  PARTIAL: "
+              "(OnceCell::get_or_init protocol) under all interleavings of n tasks: only encoder outputs are ever stored or returned, never a panic "
+              "(memo_invariant), written once (memo_write_once), never stuck and at most 4n steps (memo_completes).  PARTIAL: "
               "lossless_partial (every reply of every such history decodes to the identity body) is relative to the hypothesis that a decoder inverts "
               "the encoder; that hypothesis is validated, not proved, by decoding every reply of the run with the standard decoders.  Refuted for kvarn "
               "0.6.3 and repaired: list_header_ows_v0_refuted (7270dfd), identity_refusal_floor_v0_refuted / identity_refusal_optout_v0_refuted "
               "(identity;q=0 ignored under the floor / for opted-out handlers: 46abfcf), identity_refusal_star_v0_refuted (*;q=0: fb022d9), "
-              "identity_refusal_case_v0_refuted (Identity;q=0: 1fc432a).")
+              "identity_refusal_case_v0_refuted (Identity;q=0: 1fc432a), memo_double_write_v0_refuted (the UnsafeCell memo cell was written twice when two "
+              "worker threads raced between its second check and its write: ec0a225).")
 LEVEL_NOTE = ("Trusted: Coq kernel; extraction (sample re-checked in-kernel); hand transcription of the anchored code validated by the differential run on "
               "handle_cache / list_header / do_compress; the three decoder crates as the definition of 'standard decoder'; SC memory for the memo cell. "
               "No axioms. Encoder losslessness: validated per run, not proved. Not covered: streaming responses (compress is forced off for them and, "
